@@ -810,6 +810,44 @@ def forms_68hc11():
     yield it('org %d\n\tbrclr 5,y,#1,%d' % (at, at + 5 - 129), 'ERR', S + 'BRCLR idy/range', at=at)
 
 
+def forms_65c02():
+    """65C02: what it adds to the NMOS 6502 (WDC W65C02S data sheet, opcode matrix): BRA, PHX/PLX/PHY/PLY, STZ, TRB/TSB, INC/DEC A,
+    BIT #/zp,x/abs,x, JMP (abs,x), the (zp) mode of the eight accumulator instructions, and the Rockwell bit instructions"""
+    S = '65c02/'
+    for mn, op in (('phx', 0xda), ('plx', 0xfa), ('phy', 0x5a), ('ply', 0x7a), ('inc a', 0x1a), ('dec a', 0x3a)):      # (INA/DEA are aliases of other assemblers, not of the data sheet)
+        yield it(mn, [op], S + mn.upper())
+    for z in (0, 1, 0xff):
+        yield it('stz %d' % z, [0x64, z], S + 'STZ zp')
+        yield it('stz %d,x' % z, [0x74, z], S + 'STZ zp,x')
+        yield it('trb %d' % z, [0x14, z], S + 'TRB zp')
+        yield it('tsb %d' % z, [0x04, z], S + 'TSB zp')
+        yield it('bit %d,x' % z, [0x34, z], S + 'BIT zp,x')
+        for mn, op in (('ora', 0x12), ('and', 0x32), ('eor', 0x52), ('adc', 0x72), ('sta', 0x92), ('lda', 0xb2), ('cmp', 0xd2), ('sbc', 0xf2)):
+            yield it('%s (%d)' % (mn, z), [op, z], S + mn.upper() + ' (zp)')
+    for a in (0x100, 0x1234, 0xffff):
+        lo, hi = a & 0xff, a >> 8
+        yield it('stz %d' % a, [0x9c, lo, hi], S + 'STZ abs')
+        yield it('stz %d,x' % a, [0x9e, lo, hi], S + 'STZ abs,x')
+        yield it('trb %d' % a, [0x1c, lo, hi], S + 'TRB abs')
+        yield it('tsb %d' % a, [0x0c, lo, hi], S + 'TSB abs')
+        yield it('bit %d,x' % a, [0x3c, lo, hi], S + 'BIT abs,x')
+        yield it('jmp (%d,x)' % a, [0x7c, lo, hi], S + 'JMP (abs,x)')
+    for v in (0, 1, 0x80, 0xff):
+        yield it('bit #%d' % v, [0x89, v], S + 'BIT #')
+    yield it('lda (256)', 'ERR', S + 'LDA (zp)/range')
+    at = 0x1000
+    for dist in (-128, -1, 0, 127):
+        yield it('org %d\n\tbra %d' % (at, at + 2 + dist), [0x80, dist & 0xff], S + 'BRA', at=at)
+    for dist in (-129, 128):
+        yield it('org %d\n\tbra %d' % (at, at + 2 + dist), 'ERR', S + 'BRA/range', at=at)
+    for n in range(8):
+        yield it('rmb%d 18' % n, [0x07 | n << 4, 18], S + 'RMBn')
+        yield it('smb%d 18' % n, [0x87 | n << 4, 18], S + 'SMBn')
+        for dist in (-128, 127):
+            yield it('org %d\n\tbbr%d 18,%d' % (at, n, at + 3 + dist), [0x0f | n << 4, 18, dist & 0xff], S + 'BBRn', at=at)
+            yield it('org %d\n\tbbs%d 18,%d' % (at, n, at + 3 + dist), [0x8f | n << 4, 18, dist & 0xff], S + 'BBSn', at=at)
+
+
 ISAS = {
     '6502': dict(cpu='6502', gen=forms_6502, slot=8),
     '8080': dict(cpu='8080', gen=forms_8080, slot=8),
@@ -824,4 +862,5 @@ ISAS = {
     '6800': dict(cpu='6800', gen=forms_6800, slot=4),
     '6809-indexed': dict(cpu='6809', gen=forms_6809_indexed, slot=8),
     '68hc11': dict(cpu='6811', gen=forms_68hc11, slot=8),
+    '65c02': dict(cpu='w65c02s', gen=forms_65c02, slot=8),
 }
